@@ -477,6 +477,15 @@ fn run(ctx: &Ctx, report: &mut Report) {
         vec![m, u]
     });
     for mut m in mons {
+        m.sample(|| {
+            let p: Parameters<StaticWp<wp::D65>, f64> = Parameters::default_static_wp(40.0);
+            let x = Xyz::<wp::D65, f64>::new(0.1901, 0.2, 0.2178);
+            let c = Cam16::from_xyz(x, p);
+            let back = c.into_xyz(p);
+            let vc = Vc { white: Wp::D65.xyz(), la: 40.0, yb: 0.2, surround: 20.0, discount: None };
+            let w = model::forward([0.1901, 0.2, 0.2178], &vc);
+            json!({"xyz": [0.1901, 0.2, 0.2178], "palette J C h Q M s": fvec(&cam_arr(&c)), "model": fvec(&model_arr(&w)), "back": [back.x, back.y, back.z]})
+        });
         if m.name == names[0] {
             m.tolerance = Some("forward vs model 1e-7 (1+|v|) (f64); round trips 1e-9 x scale (f64), 1e-3 x scale (f32; largest observed 7e-5); partial -> full 1e-9 / 2e-3 relative; UCS 1e-13 / 4e-6 relative".into());
         }
